@@ -62,7 +62,7 @@ impl SchedulerQueue {
     #[verifier::external_body]
     pub fn insert(&mut self, key: (MonotonicTime, usize), a: Action)
         requires sorted(old(self).view()),
-            old(self).locked(),                                                        //@if mon
+            old(self).locked(),                          //@ C08 #queue-touched-only-under-its-lock //@if mon
         ensures
             final(self).locked(),                                                      //@if mon
             sorted(final(self).view()),
@@ -73,7 +73,7 @@ impl SchedulerQueue {
     { unimplemented!() }
     #[verifier::external_body]
     pub fn pull(&mut self) -> (r: Option<((MonotonicTime, usize), Action)>)
-        requires old(self).locked(),                                                   //@if mon
+        requires old(self).locked(),                     //@ C08 #queue-touched-only-under-its-lock //@if mon
         ensures
             final(self).locked(),                                                      //@if mon
             old(self).view().len() == 0 ==> r.is_none() && final(self).view() == old(self).view(),
@@ -82,7 +82,7 @@ impl SchedulerQueue {
     { unimplemented!() }
     #[verifier::external_body]
     pub fn peek(&self) -> (r: Option<(&(MonotonicTime, usize), &Action)>)
-        requires self.locked(),                                                        //@if mon
+        requires self.locked(),                          //@ C08 #queue-touched-only-under-its-lock //@if mon
         ensures
             self.view().len() == 0 ==> r.is_none(),
             self.view().len() > 0 ==> r.is_some() && entry_of(*r.unwrap().0, *r.unwrap().1) == self.view()[0],
